@@ -83,7 +83,7 @@ theorem enterCs_inv {k : Kind} {s : St} {t : Nat} (inv : LockInv k s)
           simpa [holds, upd, h] using hu
       subst hut
       simp only [upd_same]
-      exact List.mem_append_right _ (h1 hfree)
+      exact mem_kmerge_right _ (h1 hfree)
 
 /-- a step that changes only the pc of `t` to a value outside the lock-holding set,
 from a pc outside it -/
